@@ -42,7 +42,7 @@ P = dict(
     level="exploration",
     level_text=("Differential runtime monitoring against libstdc++ and against a direct call: (1) every ordered pair of 3-tuples over {0,1,2} is pushed through "
                 "every constructor / assignment / relation / swap / get / apply / make_from_tuple / tuple_cat / make_tuple / tie / forward_as_tuple form of "
-                "etl::pair and etl::tuple with int, mixed arithmetic, copy-only, move-only and special-member-logging elements and compared with std::pair / "
+                "etl::pair and etl::tuple with int, mixed arithmetic, copy-only, move-only, special-member-logging elements and elements with their own namespace-scope (ADL) swap, and compared with std::pair / "
                 "std::tuple (values, element copy/move counts, order of ==); (2) ~150 probe cells compare decltype(etl expression) with decltype(std expression) "
                 "for get / structured bindings / apply / make_from_tuple / tuple_cat / forward_as_tuple / tie over element kinds {int, int const, move-only, "
                 "copy-only, int&, int&&, int const&} x {lvalue, const lvalue, rvalue, const rvalue}, each cell its own binary so a cell that does not compile is "
